@@ -20,7 +20,6 @@ import (
 	"github.com/coredhcp/coredhcp/plugins/file"
 	"github.com/coredhcp/coredhcp/plugins/prefix"
 	rangeplugin "github.com/coredhcp/coredhcp/plugins/range"
-	"github.com/coredhcp/coredhcp/server"
 	"github.com/insomniacslk/dhcp/dhcpv4"
 	"github.com/insomniacslk/dhcp/dhcpv6"
 	"github.com/insomniacslk/dhcp/iana"
@@ -80,7 +79,7 @@ func runChainWorker() {
 		case "cdg4": // cdg4 <bound> <oob> <dg>
 			res = watchdog(8*time.Second, func() string {
 				return guard(func() string {
-					caps := server.VerifHandle4(h4, atoi(f[1]), unhx(f[3]), atoi(f[2]), &net.UDPAddr{IP: net.IPv4(192, 0, 2, 1), Port: 68})
+					caps := handleOn4(h4, atoi(f[1]), unhx(f[3]), atoi(f[2]), &net.UDPAddr{IP: net.IPv4(192, 0, 2, 1), Port: 68})
 					if len(caps) == 0 {
 						return "drop"
 					}
@@ -101,7 +100,7 @@ func runChainWorker() {
 		case "cdg6": // cdg6 <bound> <oob> <src> <dg>
 			res = watchdog(8*time.Second, func() string {
 				return guard(func() string {
-					caps := server.VerifHandle6(h6, atoi(f[1]), unhx(f[4]), atoi(f[2]), &net.UDPAddr{IP: net.IP(unhx(f[3])), Port: 546})
+					caps := handleOn6(h6, atoi(f[1]), unhx(f[4]), atoi(f[2]), &net.UDPAddr{IP: net.IP(unhx(f[3])), Port: 546})
 					if len(caps) == 0 {
 						return "drop"
 					}
